@@ -5,10 +5,13 @@
 //! converted instance), optionally uses and relocates it, fires `drop_now`
 //! (`ptr::drop_in_place`) and reads the slot back.
 //!
-//! Oracle: every *live key-dependent* position must read 0. A position is
-//! key-dependent when it is stable over rebuilds from the same key in perturbed
-//! contexts and differs between keys; it is live when flipping its low bit in a
-//! bitwise copy changes some encrypt/decrypt result (DESIGN.md section 4, C16).
+//! Oracle: every *key-dependent* position must read 0. A position is key-dependent
+//! when it is stable over rebuilds from the same key in perturbed contexts (stack
+//! depth, heap history, slot prefill) and differs between keys. Liveness (flipping
+//! its low bit in a bitwise copy changes some encrypt/decrypt result) is measured
+//! and reported but no longer gates the alarm: the round-0 design alarmed on live
+//! bytes only, and seeded change C16d (a wipe that skips the sub-keys of unused
+//! rounds) showed what that costs (DESIGN.md section 4/C16 and 12.2).
 
 use crate::mem::{SlotRef, Slots};
 use crate::prng::{Digest, Prng, hex, run_seed, unhex};
@@ -331,6 +334,8 @@ fn case_from_json(reg: &Registry, v: &Value) -> Option<Case> {
 }
 
 struct Outcome {
+    /// key-dependent (rule i) positions that are non-zero after drop — the alarm set
+    kdep_nonzero: Vec<usize>,
     live_nonzero: Vec<usize>,
     nonlive_nonzero: usize,
     live: usize,
@@ -342,9 +347,10 @@ fn judge(e: &mut Engine, c: &Case) -> Result<Outcome, String> {
     let (residue, dty) = e.run_case(c)?;
     let cal = e.calibrate(dty, c.mask, c.key.len());
     let live_nonzero: Vec<usize> = cal.live.iter().copied().filter(|&i| residue[i] != 0).collect();
+    let kdep_nonzero: Vec<usize> = cal.k.iter().copied().filter(|&i| residue[i] != 0).collect();
     let live: HashSet<usize> = cal.live.iter().copied().collect();
     let nonlive_nonzero = cal.k.iter().filter(|&&i| !live.contains(&i) && residue[i] != 0).count();
-    Ok(Outcome { live_nonzero, nonlive_nonzero, live: cal.live.len(), kdep: cal.k.len(), dropped_ty: dty })
+    Ok(Outcome { kdep_nonzero, live_nonzero, nonlive_nonzero, live: cal.live.len(), kdep: cal.k.len(), dropped_ty: dty })
 }
 
 fn routes_for(reg: &Registry, t: &TypeInfo) -> Vec<Route> {
@@ -449,7 +455,7 @@ pub fn main(args: &[String]) {
                                 samples.push(json!({"case": case_json(&reg, &c), "key_dependent_positions": o.kdep, "live_positions": o.live,
                                     "live_nonzero_after_drop": o.live_nonzero.len(), "nonlive_nonzero_after_drop": o.nonlive_nonzero}));
                             }
-                            if !o.live_nonzero.is_empty() {
+                            if !o.kdep_nonzero.is_empty() {
                                 let sig = format!("C16/residue/{}/{}/{}", t.family, t.variant, t.type_name);
                                 let full = format!("{}/{}/{}", sig, if mask { "soft_arm" } else { "default_arm" }, route.name());
                                 if let Some((s, w)) = known.entries.iter().find(|(s, _)| full.starts_with(s.as_str())) {
@@ -460,8 +466,8 @@ pub fn main(args: &[String]) {
                                 }
                                 if seen_sig.insert(full.clone()) {
                                     let vj = json!({"property": "C16", "class": "residue", "signature": full,
-                                        "detail": format!("{} live key-dependent bytes of {} are non-zero after drop (first offsets {:?}) of {} live / {} key-dependent / {} total",
-                                            o.live_nonzero.len(), reg.types[o.dropped_ty].name, &o.live_nonzero[..o.live_nonzero.len().min(8)], o.live, o.kdep, reg.types[o.dropped_ty].size)});
+                                        "detail": format!("{} key-dependent bytes of {} are non-zero after drop (first offsets {:?}; {} of them live, i.e. they influence encrypt/decrypt results) of {} key-dependent / {} live / {} total; key length {}",
+                                            o.kdep_nonzero.len(), reg.types[o.dropped_ty].name, &o.kdep_nonzero[..o.kdep_nonzero.len().min(8)], o.live_nonzero.len(), o.kdep, o.live, reg.types[o.dropped_ty].size, c.key.len())});
                                     let rj = json!({"format": "block-ciphers-sim-replay/1", "property": "C16", "engine": "c16", "seed": seed,
                                         "case": case_json(&reg, &c), "violation": vj});
                                     let _ = std::fs::create_dir_all(&replay_dir);
@@ -502,7 +508,7 @@ pub fn main(args: &[String]) {
             "components": {"real": ["every crate under /repo built with its zeroize feature", "zeroize", "cipher"], "vendored_with_seam": ["cpufeatures 0.2.17"], "stub": []},
         },
         "assumptions": [
-            "a key-dependent byte whose low bit is not observable through encrypt/decrypt of 256 probe blocks counts as not live (warned, not alarmed): erring this way loses recall, never soundness",
+            "a position counts as key-dependent only if it is identical over three rebuilds from the same key in perturbed contexts and differs for some pair of 8 keys of the same length (context-dependent stack garbage in padding or an unused union tail is thereby excluded)",
             "ARMv8/NEON types are not covered natively (no such hardware here)"
         ],
         "wall_s": wall,
@@ -543,18 +549,19 @@ pub fn replay(v: &Value) {
     let mut probe_rng = Prng::new(0x9E37_C16);
     let mut e = Engine { reg: &reg, anchors: &anchors, calib: HashMap::new(), probes: probe_rng.bytes(256 * 128) };
     match judge(&mut e, &c) {
-        Ok(o) if !o.live_nonzero.is_empty() => {
+        Ok(o) if !o.kdep_nonzero.is_empty() => {
             println!(
-                "{} live key-dependent bytes non-zero after drop of {} (offsets {:?}...)",
+                "{} key-dependent bytes ({} live) non-zero after drop of {} (offsets {:?}...)",
+                o.kdep_nonzero.len(),
                 o.live_nonzero.len(),
                 reg.types[o.dropped_ty].name,
-                &o.live_nonzero[..o.live_nonzero.len().min(8)]
+                &o.kdep_nonzero[..o.kdep_nonzero.len().min(8)]
             );
             println!("REPRODUCED");
             println!("VIOLATION property=C16 replay=<this file>");
             std::process::exit(1);
         }
-        Ok(_) => println!("NOT-REPRODUCED: all live key-dependent bytes are zero after drop"),
+        Ok(_) => println!("NOT-REPRODUCED: all key-dependent bytes are zero after drop"),
         Err(m) => die(&m),
     }
 }
